@@ -94,6 +94,11 @@ pub fn alphabet() -> Vec<Call> {
         c("number", "25!", "I0"),
         c("decimal", "3!", &d("0")),
         c("decimal", "25!", &d("0")),
+        // the same expression with placeholders that compare equal but are not the same value (+0.0 / -0.0)
+        c("f64", "1/@", &f(0.0)),
+        c("f64", "1/@", &f(-0.0)),
+        c("number", "1/@", "F0000000000000000"),
+        c("number", "1/@", "F8000000000000000"),
         // superscript runs (all five tokenizers share one helper for them)
         c("f64", "2¹⁰", &f(0.0)),
         c("i64", "3²+@³", "2"),
